@@ -215,8 +215,23 @@ type nodeUpdateByMap map[string]*nodeUpdates
 func (s nodeUpdateByMap) add(update graph.NodeUpdate) {
 	updateKey := newUpdateKey(update.IdentityKind, update.IdentityProperties, update.Node.Kinds)
 
+	// `set n += {key: null}` removes the property: deleted properties are sent as nulls
+	properties := update.Node.Properties.Map
+
+	if deletedProperties := update.Node.Properties.DeletedProperties(); len(deletedProperties) > 0 {
+		properties = make(map[string]any, len(update.Node.Properties.Map)+len(deletedProperties))
+
+		for key, value := range update.Node.Properties.Map {
+			properties[key] = value
+		}
+
+		for _, key := range deletedProperties {
+			properties[key] = nil
+		}
+	}
+
 	if updates, hasUpdates := s[updateKey]; hasUpdates {
-		updates.properties = append(updates.properties, update.Node.Properties.Map)
+		updates.properties = append(updates.properties, properties)
 	} else {
 		s[updateKey] = &nodeUpdates{
 			identityKind:       update.IdentityKind,
@@ -224,7 +239,7 @@ func (s nodeUpdateByMap) add(update graph.NodeUpdate) {
 			nodeKindsToAdd:     update.Node.Kinds,
 			nodeKindsToRemove:  update.Node.DeletedKinds,
 			properties: []map[string]any{
-				update.Node.Properties.Map,
+				properties,
 			},
 		}
 	}
@@ -285,10 +300,25 @@ func cypherBuildNodeUpdateQueryBatch(updates []*graph.Node) ([]string, []map[str
 	for _, nodeToUpdate := range updates {
 		updateKey := nodeToNodeUpdateKey(digester, nodeToUpdate)
 
+		// `set n += {key: null}` removes the property: deleted properties are sent as nulls
+		properties := nodeToUpdate.Properties.Map
+
+		if deletedProperties := nodeToUpdate.Properties.DeletedProperties(); len(deletedProperties) > 0 {
+			properties = make(map[string]any, len(nodeToUpdate.Properties.Map)+len(deletedProperties))
+
+			for key, value := range nodeToUpdate.Properties.Map {
+				properties[key] = value
+			}
+
+			for _, key := range deletedProperties {
+				properties[key] = nil
+			}
+		}
+
 		if existingBatch, hasBatch := batchedUpdates[updateKey]; hasBatch {
 			existingBatch.Parameters = append(existingBatch.Parameters, map[string]any{
 				"id":         nodeToUpdate.ID,
-				"properties": nodeToUpdate.Properties.Map,
+				"properties": properties,
 			})
 		} else {
 			batchedUpdates[updateKey] = &nodeUpdateBatch{
@@ -296,7 +326,7 @@ func cypherBuildNodeUpdateQueryBatch(updates []*graph.Node) ([]string, []map[str
 				nodeKindsToRemove: nodeToUpdate.DeletedKinds,
 				Parameters: []map[string]any{{
 					"id":         nodeToUpdate.ID,
-					"properties": nodeToUpdate.Properties.Map,
+					"properties": properties,
 				}},
 			}
 		}
